@@ -61,6 +61,81 @@ def has_group_like_absent_mandatory(t, v):
     return 'mandatory-addition-missing' in value_tags(t, v, 'jer')
 
 
+def has_enum(t):
+    k = t['k']
+    if k == 'enum':
+        return True
+    if k in ('seqof', 'setof'):
+        return has_enum(t['elem'])
+    if k in ('seq', 'set'):
+        return any(has_enum(m['t']) for m in t['root'] + (t['ext'] or []))
+    if k == 'choice':
+        return any(has_enum(a) for _, a in t['root'] + (t['ext'] or []))
+    return False
+
+
+def numeric_value(t, v):
+    """the same abstract value as it is written for a specification compiled with numeric_enums=True"""
+    k = t['k']
+    if v is None:
+        return v
+    if k == 'enum':
+        return dict(t['root'] + (t['ext'] or []))[v]
+    if k in ('seqof', 'setof'):
+        return [numeric_value(t['elem'], e) for e in v]
+    if k in ('seq', 'set'):
+        ms = {m['name']: m['t'] for m in t['root'] + (t['ext'] or [])}
+        return {n: numeric_value(ms[n], x) for n, x in v.items()}
+    if k == 'choice':
+        for n, a in t['root'] + (t['ext'] or []):
+            if n == v[0]:
+                return (n, numeric_value(a, v[1]))
+    return v
+
+
+def work_numeric(part, t, text, vals):
+    """numeric_enums=True: the documents are those of the name-based specification (the text formats carry names),
+    and decoding returns the numbers"""
+    for codec in ('jer', 'xer'):
+        st, spec = impl.compile_text(text, codec)
+        stn, specn = impl.compile_text(text, codec, numeric_enums=True)
+        if st != 'ok' or stn != 'ok':
+            part.count('numeric.compile.' + stn)
+            continue
+        for v in vals:
+            if codec == 'xer' and not strings_ok(t, v, xer_text_safe):
+                continue
+            try:
+                vn = numeric_value(t, v)
+            except KeyError:
+                continue
+            for indent in (None, 2):
+                part.case(('numeric', text, repr(v), codec, indent))
+                r0 = impl.encode(spec, 'A', v, indent=indent)
+                r = impl.encode(specn, 'A', vn, indent=indent)
+                if r0[0] != 'ok':
+                    continue
+                if r[0] != 'ok' or (codec == 'xer' and r[1] != r0[1]):     # JER writes the numbers themselves; XER has only names
+                    part.violation('%s (numeric_enums): the document differs from the one written for the same value with enumeration names' % codec,
+                                   {'codec': codec, 'module': text, 'value': repr(vn), 'indent': indent, 'numeric_enums': True,
+                                    'document': repr(r[1:])[:1500], 'document_with_names': r0[1].decode('utf-8', 'replace')[:1500]})
+                    continue
+                d = impl.decode(specn, 'A', r[1])
+                d0 = impl.decode(spec, 'A', r0[1])
+                if d0[0] != 'ok':
+                    continue
+                try:
+                    want = numeric_value(t, d0[1])
+                except KeyError:
+                    continue
+                if d[0] != 'ok' or not py_equal(t, d[1], want):
+                    part.violation('%s (numeric_enums): decoding the document does not give back the value' % codec,
+                                   {'codec': codec, 'module': text, 'value': repr(vn), 'indent': indent, 'numeric_enums': True,
+                                    'document': r[1].decode('utf-8', 'replace')[:1500], 'decoded': repr(d[1:])[:800], 'expected': repr(want)[:800]})
+                else:
+                    part.count('%s.numeric_enums.ok' % codec)
+
+
 def work(job):
     chunk, have_x = job
     part = core.Part()
@@ -69,6 +144,8 @@ def work(job):
     for (t, text, vals) in chunk:
         modelled = is_modelled(t)
         tsx = ty_sx(t) if modelled else None
+        if has_enum(t):
+            work_numeric(part, t, text, vals)
         for codec in ('jer', 'xer'):
             st, spec = impl.compile_text(text, codec)
             if st != 'ok':
@@ -135,8 +212,9 @@ def run(ctx):
                          'REAL boundary doubles separately; distinct = distinct (module, value, codec, indent)')
     opts = Opts(max_depth=3, allow_exotic=0.0, big_lengths=0.0)
     cases = []
+    opts_ext = Opts(max_depth=3, allow_exotic=0.0, big_lengths=0.0, kinds=opts.kinds + ['real', 'oid', 'set', 'setof', 'enum', 'setof'])
     for i in range(ctx.n(170, 3000)):
-        g = Gen(rng, opts)
+        g = Gen(rng, opts if i % 4 else opts_ext)
         t = g.type()
         cases.append((t, module_text([('A', t)]), [g.value(t) for _ in range(3)]))
     for t, vals in boundary_cases(rng)[::ctx.n(6, 1)]:
